@@ -133,7 +133,10 @@ def run_suite(name: str, seed: int, n_hist: int, struct: bool, oracles=(), max_o
     try:
         hists = list(corpus or [])
         for i in range(n_hist):
-            h = gen(rng, max_ops=max_ops, max_rows=max_rows, **(gen_kw or {}))
+            kw = dict(gen_kw or {})
+            if gen is gen_history and "force" not in kw and i < 6 and n_hist >= 100:
+                kw["force"] = "wide" if i < 3 else "big"
+            h = gen(rng, max_ops=max_ops, max_rows=max_rows, **kw)
             if per_insert_every and i % per_insert_every == 0:
                 h = expand_per_insert(h)
             hists.append(h)
